@@ -228,7 +228,52 @@ func cacheLookupRules(c *Ctx, rule string) {
 						return true
 					}
 					// the scan is left: a hit, unreachable unless an edge established slot.seqno == seqno
-					hit := !ff.ReachableAvoiding(x, func(f *Fact, st *State) bool {
+					isHitFact := func(f *Fact) bool {
+						if f.Op != "eq" || !f.Pos || f.B == nil {
+							return false
+						}
+						for _, pr := range [][2]*Term{{f.A, f.B}, {f.B, f.A}} {
+							if pr[0].K == 'f' && pr[0].Obj == types.Object(fSeq) && pr[1].K == 'v' {
+								for _, po := range params {
+									if po != nil && pr[1].Obj == po {
+										return true
+									}
+								}
+							}
+						}
+						return false
+					}
+					// a break is not a node of the control-flow graph: the statement before it in
+					// its block stands for it, or - first in an if body - the condition taken true
+					var target ast.Node = x
+					condFacts := false
+					if br, isBr := x.(*ast.BranchStmt); isBr {
+						target = nil
+						if blk, isBlk := p.Parent(g.File, br).(*ast.BlockStmt); isBlk {
+							for i, s := range blk.List {
+								if s == ast.Stmt(br) && i > 0 {
+									target = blk.List[i-1]
+								}
+							}
+							if target == nil {
+								if ifs, isIf := p.Parent(g.File, blk).(*ast.IfStmt); isIf && ifs.Body == blk {
+									target = ifs.Cond
+									if learnt := ff.assume(emptyState, ifs.Cond, true); learnt != nil {
+										for _, f := range learnt.Facts() {
+											if isHitFact(f) {
+												condFacts = true
+											}
+										}
+									}
+								}
+							}
+						}
+						if target == nil {
+							okScan, why = false, "a jump at "+p.PosStr(x.Pos())+" whose place in the control flow is not understood"
+							return true
+						}
+					}
+					hit := condFacts || !ff.ReachableAvoiding(target, func(f *Fact, st *State) bool {
 						if f.Op != "eq" || !f.Pos || f.B == nil {
 							return false
 						}
